@@ -411,12 +411,53 @@ def scan_cases(alg, slice_idx, seed):
             msg = bytes(rng.below(255) + 1 for _ in range(n)) if entry == "hex" else rng.bytes(n)
             ip, op = pads(alg, key)
             needles = [ip[:NEEDLE], op[:NEEDLE]]
+            if kl > b and 1 <= alg <= 5:
+                # the hashed key K' = H(key) is the effective key.  SHA-1/SHA-2 only: their digest is the byte-swapped
+                # state, so a register spill of the chaining words cannot be mistaken for it (MD5 and GOST emit it as is)
+                needles.append(c04.ref_digest(alg, key)[:20])
             pay = (bytes((OP_HMAC_STACKSCAN, alg, 0, SCAN_KINDS[entry])) + struct.pack("<I", len(key)) + key +
                    struct.pack("<I", len(msg)) + msg + bytes((len(needles),)) +
                    b"".join(struct.pack("<I", len(x)) + x for x in needles))
             out.append({"alg": alg, "entry": entry, "kl": kl, "n": n, "key": key.hex(), "msg": msg.hex(),
                         "payload": pay, "expect": ref_hmac(alg, key, msg)})
     return out
+
+
+def null_empty_cases(alg, seed):
+    """one-call entry points with the empty key and/or the empty message given as (NULL, 0)"""
+    rng = Rng(PROP, "null-empty", seed, alg)
+    out = []
+    for entry in ("oneshot", "get", "hex"):
+        for kl, n in ((0, 0), (0, 19), (23, 0), (0, BLOCK[alg] + 1), (BLOCK[alg] + 5, 0)):
+            key = bytes(rng.below(255) + 1 for _ in range(kl))
+            msg = bytes(rng.below(255) + 1 for _ in range(n))
+            out.append({"alg": alg, "entry": entry, "kl": kl, "n": n, "key": key.hex(), "msg": msg.hex(),
+                        "payload": p_hmac_oneshot(ENTRY_OP[entry], alg, 0, 0, 0x5a, 0, 2, key, msg), "expect": ref_hmac(alg, key, msg)})
+    return out
+
+
+def judge_null_empty(part, v, vname, cases, results):
+    for t, obs in zip(cases, results):
+        ename = "hmac_%s.%s" % (ALG_NAMES[t["alg"]], t["entry"])
+        w = {"variant": vname, "build": v["spec"], "case": {k: t[k] for k in ("alg", "entry", "kl", "n", "key", "msg")}, "seed": common.seed()}
+        w["case"]["null_empty"] = True
+        if isinstance(obs, common.Crash):
+            key = common.crash_key(obs, ename + ".null-empty")
+            if obs.kind in ("ubsan", "msan"):
+                # memcpy(dst, NULL, 0) inside the library is reported by UBSan's nonnull check; the value is judged in the plain builds
+                part["observations"][key] = part["observations"].get(key, 0) + 1
+            else:
+                part["violations"].append((key, dict(w, observed="crash %s rc=%s" % (obs.kind, obs.returncode), report=obs.report[-2000:])))
+            continue
+        st, guard, out, rsz = parse_oneshot_obs(obs)
+        if st != 0:
+            continue
+        part["evaluations"] += 1
+        part["counters"]["null_empty_cases"] = part["counters"].get("null_empty_cases", 0) + 1
+        got = bytes.fromhex(out[:-1].decode(errors="replace")) if t["entry"] == "hex" and all(c in b"0123456789abcdefABCDEF" for c in out[:-1]) else out
+        if got != t["expect"]:
+            part["violations"].append(("oracle:%s:wrong-mac:empty-input-as-null-pointer" % ename,
+                                       dict(w, expected=t["expect"].hex(), observed=out.hex()[:160])))
 
 
 def judge_scan(part, v, vname, cases, results):
@@ -440,6 +481,7 @@ def judge_scan(part, v, vname, cases, results):
             continue
         mac = r.blob()
         found = [r.i64(), r.i64()]
+        kprime_at = r.i64() if (t["kl"] > BLOCK[t["alg"]] and 1 <= t["alg"] <= 5) else -1
         part["evaluations"] += 1
         cnt["stack_scans"] = cnt.get("stack_scans", 0) + 1
         cnt["stack_scans_" + ("long-key" if t["kl"] > BLOCK[t["alg"]] else "short-key")] = \
@@ -448,6 +490,14 @@ def judge_scan(part, v, vname, cases, results):
         if got != t["expect"]:
             part["violations"].append(("oracle:%s:wrong-mac:on-private-stack" % ename,
                                        dict(w, expected=t["expect"].hex(), observed=got.hex())))
+        if kprime_at >= 0:
+            if "-O0" in (v["spec"].get("flags") or []):
+                k = "stack:%s:hashed-key-bytes-on-stack-in-O0-build" % ename
+                part["observations"][k] = part["observations"].get(k, 0) + 1
+            else:
+                part["violations"].append(("stack:%s:hashed-key-left-on-stack" % ename,
+                                           dict(w, observed="the first 20 bytes of H(key) (the effective HMAC key of a long key) found %d bytes "
+                                                "below the top of the private stack after the call returned" % kprime_at)))
         for which, d in zip(("ipad", "opad"), found):
             if d >= 0:
                 part["violations"].append(("stack:%s:keyed-pad-left-on-stack:%s" % (ename, which),
@@ -532,6 +582,9 @@ def worker(job):
         for f in forced_selectors(v["flavor"], v["info"], alg):
             res, storm = run_batched(v["exe"], [with_force(full[i], f) for i in red_idx])
             judge_run(part, v, vname, f, red_tpls, res, storm)
+        if job["slice"] == 0:
+            ne = null_empty_cases(alg, job["seed"])
+            judge_null_empty(part, v, vname, ne, common.run_cases(v["exe"], [t["payload"] for t in ne]))
         if v["spec"].get("san") == "plain":
             sc = scan_cases(alg, job["slice"], job["seed"])
             judge_scan(part, v, vname, sc, common.run_cases(v["exe"], [t["payload"] for t in sc]))
@@ -614,12 +667,25 @@ def replay(path):
             print(" %s: %s" % (k, ww.get("observed")))
         print(" verdict: %s" % ("still failing" if part["violations"] else "not reproduced"))
         return 1 if part["violations"] else 0
+    if t.get("null_empty"):
+        key, msg = bytes.fromhex(t["key"]), bytes.fromhex(t["msg"])
+        pay = p_hmac_oneshot(ENTRY_OP[t["entry"]], t["alg"], 0, 0, 0x5a, 0, 2, key, msg)
+        part = common.new_part()
+        judge_null_empty(part, {"spec": w["build"]}, w["variant"], [dict(t, payload=pay, expect=ref_hmac(t["alg"], key, msg))],
+                         common.run_cases(exe, [pay]))
+        for k, ww in part["violations"]:
+            print(" %s: %s" % (k, ww.get("observed")))
+        print(" verdict: %s" % ("still failing" if part["violations"] else "not reproduced"))
+        return 1 if part["violations"] else 0
     if t.get("scan"):
         key, msg = bytes.fromhex(t["key"]), bytes.fromhex(t["msg"])
         ip, op = pads(t["alg"], key)
+        nd = [ip[:NEEDLE], op[:NEEDLE]]
+        if len(key) > BLOCK[t["alg"]] and 1 <= t["alg"] <= 5:
+            nd.append(c04.ref_digest(t["alg"], key)[:20])
         pay = (bytes((OP_HMAC_STACKSCAN, t["alg"], 0, SCAN_KINDS[t["entry"]])) + struct.pack("<I", len(key)) + key +
-               struct.pack("<I", len(msg)) + msg + bytes((2,)) +
-               b"".join(struct.pack("<I", NEEDLE) + x[:NEEDLE] for x in (ip, op)))
+               struct.pack("<I", len(msg)) + msg + bytes((len(nd),)) +
+               b"".join(struct.pack("<I", len(x)) + x for x in nd))
         part = common.new_part()
         tt = dict(t, payload=pay, expect=ref_hmac(t["alg"], key, msg))
         judge_scan(part, {"spec": w["build"]}, w["variant"], [tt], common.run_cases(exe, [pay]))
